@@ -18,7 +18,7 @@ func init() { register(c11{}) }
 func (c11) Meta() core.Meta {
 	return core.Meta{
 		ID: "C11", Level: "exploration",
-		Rule: "case i = f(seed,i): Map of nested maps (no empty lists; lists and scalars as terminal values), a dot-path through it (existing, missing last key, missing parent, through a scalar, ending at scalar/map/list/null; 1..6 segments, top level included) and a new name (fresh, existing sibling, the key itself). Each of Set/Remove/Rename runs on its own deep copy; the result is compared with the expected Map computed on an independent copy (frame: exactly one entry differs) or, on failure, with the untouched copy. Non-trivial: depth>=2 path whose parent exists; distinct by hash(map,path,newname).",
+		Rule:        "case i = f(seed,i): Map of nested maps (no empty lists; lists and scalars as terminal values), a dot-path through it (existing, missing last key, missing parent, through a scalar, ending at scalar/map/list/null; 1..6 segments, top level included) and a new name (fresh, existing sibling, the key itself). Each of Set/Remove/Rename runs on its own deep copy; the result is compared with the expected Map computed on an independent copy (frame: exactly one entry differs) or, on failure, with the untouched copy. Non-trivial: depth>=2 path whose parent exists; distinct by hash(map,path,newname).",
 		Assumptions: []string{"paths that run through a list are outside the quantifier; for them only absence of panics and (for Remove/Rename) non-modification are checked"},
 		Anchors:     []string{"Map.SetValueForPath", "Map.Remove", "remove", "Map.RenameKey", "renameKey", "prevValueByPath", "parentPath", "lastKey"},
 		Floors:      map[string]int64{"set:success": 2000, "set:parent-missing": 300, "set:parent-scalar": 200, "remove:success": 1000, "remove:missing": 500, "rename:success": 500, "rename:clash": 300, "rename:clash-toplevel": 50, "rename:self": 50, "toplevel-path": 500},
@@ -32,7 +32,7 @@ func (c11) Cases(tier string, race bool) int {
 	if tier == "thorough" {
 		return 1500000
 	}
-	return 40000
+	return 150000
 }
 
 func (c11) Case(c *core.Ctx) {
